@@ -199,7 +199,7 @@ and CG `assert A.isa(PSD)`; the rule for a plain `Algorithm` object is condition
 operator, so the condition is then automatic: `algDeclared_auto`.) -/
 def AlgDeclared (alg : Alg) (A : Op R) : Prop :=
   match effAlg alg (A.isa .psd) (A.rows * A.cols) with
-  | .cg => A.isa .psd = true
+  | .cg _ => A.isa .psd = true
   | .chol => A.isa .psd = true
   | .other => A.isa .unitary = true
   | _ => True
@@ -207,13 +207,13 @@ def AlgDeclared (alg : Alg) (A : Op R) : Prop :=
 /-- **input-level success condition of `inv(A, alg)`** -/
 def Declared (alg : Alg) (A : Op R) : Prop := AtRules (AlgDeclared alg) (fun _ => True) A A
 
-theorem effAlg_ne_auto (alg : Alg) (isPSD : Bool) (n : Nat) : effAlg alg isPSD n ≠ .auto := by
+theorem effAlg_ne_auto (alg : Alg) (isPSD : Bool) (n : Nat) (d : Opts) :
+    effAlg alg isPSD n ≠ .auto d := by
   unfold effAlg autoChoice
-  split
-  · split <;> simp
-  · assumption
+  cases alg <;> simp
+  split <;> simp
 
-theorem algDeclared_auto (A : Op R) : AlgDeclared .auto A := by
+theorem algDeclared_auto (d : Opts) (A : Op R) : AlgDeclared (.auto d) A := by
   unfold AlgDeclared effAlg autoChoice
   cases h : A.isa .psd <;> by_cases h2 : A.rows * A.cols ≤ 1000000 <;> simp [h2]
 
@@ -223,10 +223,10 @@ theorem algRule_ok_iff (E : Ext R) (alg : Alg) (A : Op R) :
   have hne := effAlg_ne_auto alg (A.isa .psd) (A.rows * A.cols)
   generalize effAlg alg (A.isa .psd) (A.rows * A.cols) = ea at hne
   cases ea with
-  | auto => exact absurd rfl hne
-  | gmres => simp
+  | auto d => exact absurd rfl (hne d)
+  | gmres o => simp
   | lu => simp
-  | cg => simp only; split <;> simp_all
+  | cg o => simp only; split <;> simp_all
   | chol => simp only; split <;> simp_all
   | other => simp only; split <;> simp_all
 
